@@ -247,6 +247,25 @@ def check_align(fn):
             raise Unsupported(f'_align_vectors: statement `{want}` not found (in order)') from None
 
 
+MEAN_PINS = [   # Rotation.mean: what C12_mean_sign_invariant / C12_mean_of_copies are about
+    'k = weights.unsqueeze(-2) * quaternions.mT @ quaternions',
+    '_, v = torch.linalg.eigh(k)',
+    'mean_quaternions = v[..., -1]',
+]
+
+
+def check_mean(tree):
+    cls = next(n for n in tree.body if isinstance(n, ast.ClassDef) and n.name == 'Rotation')
+    fn = next(n for n in cls.body if isinstance(n, ast.FunctionDef) and n.name == 'mean')
+    lines = [ln.strip() for ln in ast.unparse(fn).splitlines()]
+    pos = -1
+    for want in MEAN_PINS:
+        try:
+            pos = lines.index(want, pos + 1)
+        except ValueError:
+            raise Unsupported(f'Rotation.mean: statement `{want}` not found (in order)') from None
+
+
 def translate_euler(fn):
     """a, b, c, d of both branches of `if symmetric:` as ring expressions of (cw, cq, cr, cs, sg); the angle formulas are pinned textually"""
     first = {}
@@ -321,6 +340,14 @@ def translate():
         parts.append(f'  Definition gen_available{name} := true.   (* single-pair / infinite-weight branch pinned: see ALIGN_PINS *)')
         avail[name] = (True, '')
     except (Unsupported, KeyError, AttributeError, TypeError) as e:
+        parts.append(f'  (* translator failed closed for {name}: {str(e)[:300]} *)\n  Definition gen_available{name} := false.')
+        avail[name] = (False, str(e)[:300])
+    name = 'Rotation_mean'
+    try:
+        check_mean(tree)
+        parts.append(f'  Definition gen_available{name} := true.   (* accumulated matrix / eigh / last eigenvector pinned: see MEAN_PINS *)')
+        avail[name] = (True, '')
+    except (Unsupported, KeyError, AttributeError, TypeError, StopIteration) as e:
         parts.append(f'  (* translator failed closed for {name}: {str(e)[:300]} *)\n  Definition gen_available{name} := false.')
         avail[name] = (False, str(e)[:300])
     txt = f'''(* GENERATED on every run by harness/translate/rotation.py from {SRC} -- do not edit *)
